@@ -520,7 +520,13 @@ pub fn build(step: &LStep, view: &View, node: &Node) -> Built {
                 return Built::Skip;
             }
             let first: Vec<NonFungibleLocalId> = ids.iter().take((*a as usize).max(1)).cloned().collect();
-            let last: Vec<NonFungibleLocalId> = ids.iter().rev().take((*nb as usize).max(1)).cloned().collect();
+            // odd b: the second proof starts at the last id of the first one (always overlapping);
+            // even b: taken from the other end (overlapping only on small holdings)
+            let last: Vec<NonFungibleLocalId> = if nb % 2 == 1 {
+                ids.iter().skip(first.len() - 1).take((*nb as usize).max(1)).cloned().collect()
+            } else {
+                ids.iter().rev().take((*nb as usize).max(1)).cloned().collect()
+            };
             let mut bb = b
                 .create_proof_from_account_of_non_fungibles(acct, r.addr, first.clone())
                 .create_proof_from_account_of_non_fungibles(acct, r.addr, last)
